@@ -252,10 +252,18 @@ func pArchive(args []string) string {
 	want := records(a)
 	i, err := cbfs.NewImage(bytes.NewReader(img))
 	if err != nil {
+		for k := range a {
+			if a[k].typ == uint32(cbfs.TypeLegacyStage) && len(a[k].data) == 28 && strings.Contains(err.Error(), "subheader") {
+				return "FAIL legacy-stage-header-only newimage-error " + err.Error()
+			}
+		}
 		return "FAIL newimage-error " + err.Error()
 	}
 	got := segEntries(i)
 	if len(got) != len(want) {
+		if len(got) == len(want)-1 && len(a[len(a)-1].data) == 0 {
+			return fmt.Sprintf("FAIL zero-size-last-record-dropped got %d want %d", len(got), len(want))
+		}
 		return fmt.Sprintf("FAIL listing-count got %d want %d", len(got), len(want))
 	}
 	prevEnd := uint64(0)
@@ -742,7 +750,7 @@ func gen(r *Rng, tier string, emit Emit) {
 			if size > len(bad) && rr.Bool() {
 				// cut the image inside / right after the area
 				cut := aoff3 + len(bad) - rr.Intn(8)
-				if cut < len(img3) && cut > 0 && !bytes.Contains(img3[cut-8:], fmap.Signature[:2]) {
+				if cut < len(img3) && cut > 0 {
 					// only when the flash map lies before the cut
 					if i := bytes.Index(img3, fmap.Signature); i >= 0 && i+56+42*12 < cut {
 						img3 = img3[:cut]
